@@ -776,8 +776,10 @@ func main() {
 		exp = *expect
 	}
 	t.Line("mode", false, "mode %s => %s", probeMode(), exp)
+	// a fixed history first: six consecutive keys (every structured forgery is possible on its tree)
+	history(r, t, *n/3+100, *maxMut, true)
 	for t.Lines < *n {
-		history(r, t, *n/4+100, *maxMut)
+		history(r, t, *n/4+100, *maxMut, false)
 	}
 	t.Close(nil)
 }
@@ -785,7 +787,7 @@ func main() {
 var keyU = [][]byte{[]byte("a"), []byte("aa"), []byte("ab"), []byte("b"), {'b', 0}, []byte("c"), {0}, {0xff}, {0xff, 0xff}, {'a', 0xff}, []byte("d"), []byte("ba")}
 var valU = [][]byte{[]byte("1"), []byte("22"), {}, {0}, []byte("value-3"), {0xff, 0xff}}
 
-func history(r *gen.R, t *gen.Trace, budget, maxMut int) {
+func history(r *gen.R, t *gen.Trace, budget, maxMut int, canned bool) {
 	start := t.Lines
 	order := []string{"acc", "pos"}
 	w := newWorld(t, order)
@@ -798,6 +800,23 @@ func history(r *gen.R, t *gen.Trace, budget, maxMut int) {
 	blocks := 1 + r.Intn(4)
 	crafted := map[string][2][]byte{} // store/key -> (forged key, forged value) hidden in the stored value
 	var latest int64
+	if canned {
+		blocks = 0
+		for i, k := range []string{"a", "b", "c", "d", "e", "f"} {
+			n := "acc"
+			v := []byte("v" + k)
+			if i == 3 {
+				fk, fv := []byte("d\x02"), []byte("hidden")
+				v = craftedValue(fk, fv)
+				crafted[n+"/"+k] = [2][]byte{fk, fv}
+			}
+			_ = w.rs.GetKVStore(w.keys[n]).Set([]byte(k), v)
+			w.live[n][k] = v
+		}
+		_ = w.rs.GetKVStore(w.keys["pos"]).Set([]byte("x"), []byte("1"))
+		w.live["pos"]["x"] = []byte("1")
+		latest = w.commit()
+	}
 	for b := 0; b < blocks; b++ {
 		nw := 1 + r.Intn(6)
 		for i := 0; i < nw; i++ {
